@@ -222,3 +222,45 @@ def is_full_index_range(it, array):
         return False
     txt = norm(args[0]).replace(' ', '')
     return txt in ('len(%s)' % array, '%s.shape[0]' % array, '%s.size(0)' % array, '%s.__len__()' % array)
+
+
+def inlined(f, node, depth=4, ctx=None):
+    """Copy of an expression in which every local with a single definition is replaced by that definition (recursively,
+    depth-limited): the expression in terms of parameters, fields, loop variables and multiply-defined locals only.  For
+    comparisons that must not depend on whether a sub-expression was given a name.  With `ctx` (the flow context of the
+    statement holding the expression) a local defined several times is read through its nearest preceding definition in the
+    same block."""
+    import copy
+
+    def block_def(name):
+        if ctx is None:
+            return None
+        for st in reversed(ctx.block[:ctx.index]):
+            if isinstance(st, ast.Assign):
+                for t, v in assigned_pairs(st):
+                    if isinstance(t, ast.Name) and t.id == name and not isinstance(v, tuple):
+                        return v
+            if any(isinstance(x, ast.Name) and x.id == name and isinstance(x.ctx, ast.Store) for x in ast.walk(st)):
+                return None
+        return None
+
+    def rec(n, d):
+        if isinstance(n, ast.Name) and isinstance(n.ctx, ast.Load) and n.id not in f.params and d > 0:
+            v = single_def(f, n.id)
+            if v is None:
+                v = block_def(n.id)
+            if v is not None:
+                return rec(copy.deepcopy(v), d - 1)
+            return n
+        for fld, val in ast.iter_fields(n):
+            if isinstance(val, ast.AST):
+                setattr(n, fld, rec(val, d))
+            elif isinstance(val, list):
+                setattr(n, fld, [rec(x, d) if isinstance(x, ast.AST) else x for x in val])
+        return n
+    return rec(copy.deepcopy(node), depth)
+
+
+def itext(f, node):
+    """Normalised text (no blanks) of inlined(f, node)."""
+    return norm(inlined(f, node)).replace(' ', '')
